@@ -1,10 +1,17 @@
 PROP = "C03"
-LEVEL = "exploration"
-CONTRACT_MODULES = ["menger"]
-DEDUCTIVE = []
-EXPLANATION = "bounded run-time layer only (the per-index lemmas of DESIGN section 5/C03 are not discharged)"
-LEVEL_TEXT = ("Bounded exploration: seeded random exact two-slope elbows (arms 3..12 segments, spacings 1..4, slopes multiples of 1/8, dyadic "
-              "offsets), every detector and option must return the corner index exactly. The statement's exactness conditions make the "
-              "floating-point oracle exact. Not a proof: arm lengths are unbounded in the statement.")
+LEVEL = "other"
+CONTRACT_MODULES = ["detectors", "menger"]
+DEDUCTIVE = [("detectors", "lemma:menger_elbow_geometry"), ("detectors", "lemma:menger_elbow_corner"),
+             ("detectors", "kneeliverse.menger.knee")]
+EXPLANATION = ("Menger detector: proved for the whole family and beyond (any real slopes s1 != s2, any increasing spacing, arms of any length >= 1 "
+               "segment, real arithmetic): lemma menger_elbow_geometry (away from the corner consecutive triples are collinear, at the corner the "
+               "cross product is a*b*(s1-s2) != 0) and lemma menger_elbow_corner (with menger.knee's proved postcondition of C09 the returned index "
+               "is the corner). The statement's dyadic restrictions are what makes floating point agree with the reals on the family. The other "
+               "detectors (curvature, DFDT: third-party uts gradients; L-method: fit costs summarised as uninterpreted; Kneedle) are decided by the "
+               "bounded layer only.")
+LEVEL_TEXT = ("Deductive for the Menger detector (two lemmas over its discharged contract, all arm lengths). Bounded for the others: seeded random exact "
+              "two-slope elbows (arms 3..12 segments, spacings 1..4, slopes multiples of 1/8, dyadic offsets), every detector and option must return "
+              "the corner index exactly; the statement's exactness conditions make the floating-point oracle exact (the bounded part is not a proof: "
+              "arm lengths are unbounded in the statement).")
 LEVEL_NOTE = "bounded sample of the elbow family; DFDT/Kneedle/best-fit depend on third-party numerics (uts, np.polyfit)"
-TECHNIQUE = "bounded run-time checking on exactly representable two-slope elbows (stand-in)"
+TECHNIQUE = "lemmas over the discharged contract of menger.knee (z3, real arithmetic); bounded run-time checking on exactly representable two-slope elbows for the other detectors"
